@@ -496,6 +496,15 @@ def b_c16(tier):
                       [float(x) for x in df.read_columns(name=["extra%d" % k])] == extra,
                       "after append_column the same handle does not show the new column", shape_before=shp0, shape_after=tuple(df.df_shape),
                       names=list(df.column_names))
+                # ... and rows can still be appended after the column
+                try:
+                    more = tuple(cell(tp, 50, c) for c, tp in enumerate(types)) + (2.5,)
+                    df.append_rows([more])
+                    check(len(df) == len(model) + 1 and list(df.read_rows([len(model)])[0]) == list(more),
+                          "a row appended after append_column does not read back", expected=list(more))
+                    extra = extra + [2.5]
+                except Exception as e:
+                    check(False, "append_rows was refused after append_column", error=repr(e)[:160])
                 check(list(h2.column_names) == list(df.column_names) and tuple(h2.df_shape) == tuple(df.df_shape) and
                       [float(x) for x in h2.read_columns(index=[len(names)])] == extra,
                       "a second handle on the frame does not show the column appended through the first", second=list(h2.column_names),
@@ -2195,6 +2204,136 @@ def b_c07(tier):
             "every probe pair x 2 modes, tick_at / axis; set descriptors without / with 1 / 4 labels" % (len(intervals) * len(offsets)))
 
 
+def _collect(f):
+    """every entity of the file as a live Python object, keyed by its path"""
+    objs = {}
+
+    def sec(s, path):
+        objs[path] = s
+        for p in s.props:
+            objs[path + "/prop:" + p.name] = p
+        for c in s.sections:
+            sec(c, path + "/" + c.name)
+
+    def src(s, path):
+        objs[path] = s
+        for c in s.sources:
+            src(c, path + "/" + c.name)
+    for s in f.sections:
+        sec(s, "md/" + s.name)
+    for b in f.blocks:
+        objs["b/" + b.name] = b
+        for a in b.data_arrays:
+            objs["b/%s/a/%s" % (b.name, a.name)] = a
+            for i, dm in enumerate(a.dimensions):
+                objs["b/%s/a/%s/dim%d" % (b.name, a.name, i)] = dm
+        for d in b.data_frames:
+            objs["b/%s/df/%s" % (b.name, d.name)] = d
+        for kind, cont in (("t", b.tags), ("m", b.multi_tags)):
+            for t in cont:
+                objs["b/%s/%s/%s" % (b.name, kind, t.name)] = t
+        for g in b.groups:
+            objs["b/%s/g/%s" % (b.name, g.name)] = g
+        for s in b.sources:
+            src(s, "b/%s/s/%s" % (b.name, s.name))
+    return objs
+
+
+def _observe(objs):
+    """what each live object shows through the public API"""
+    import nixio
+    out = {}
+    for path, o in objs.items():
+        cls = type(o).__name__
+        if cls == "Section":
+            out[path] = walk_section(o)
+        elif cls == "Property":
+            out[path] = dict(values=_safe(lambda: o.values), unit=_safe(lambda: o.unit), dtype=_safe(lambda: str(o.data_type)))
+        elif cls == "Source":
+            out[path] = walk_source(o)
+        elif cls == "Block":
+            out[path] = dict(walk_entity(o, "block"), arrays=[x.name for x in o.data_arrays], frames=[x.name for x in o.data_frames],
+                             tags=[x.name for x in o.tags], mtags=[x.name for x in o.multi_tags], groups=[x.name for x in o.groups],
+                             sources=[x.name for x in o.sources])
+        elif cls == "DataArray":
+            out[path] = walk_array(o)
+        elif cls == "DataFrame":
+            out[path] = dict(walk_entity(o, "frame"), columns=_safe(lambda: list(o.column_names)), shape=_safe(lambda: tuple(o.df_shape)),
+                             n=_safe(lambda: len(o)), rows=_safe(lambda: [list(r) for r in o.read_rows(list(range(len(o))))] if len(o) else []),
+                             units=_safe(lambda: list(o.units) if o.units is not None else None))
+        elif cls in ("Tag", "MultiTag"):
+            out[path] = walk_tag(o, cls == "MultiTag")
+        elif cls == "Group":
+            out[path] = dict(walk_entity(o, "group"), arrays=[x.id for x in o.data_arrays], tags=[x.id for x in o.tags],
+                             mtags=[x.id for x in o.multi_tags], sources=[x.id for x in o.sources])
+        elif cls.endswith("Dimension"):
+            out[path] = walk_dim(o)
+    return json.loads(json.dumps(out, default=str, sort_keys=True))
+
+
+def b_c02live(tier):
+    """every live handle shows the stored state: objects fetched (and fully read) BEFORE a change made through other handles"""
+    import nixio
+    f = sample_file(newfile()); path = f._h5file.filename
+    b = f.blocks[0]
+    b.create_data_frame("frame", "t", col_dict={"c0": float, "c1": int}, data=[(1.0, 2), (3.0, 4)])
+    steps = [
+        ("array label / unit", lambda g: (setattr(g.blocks[0].data_arrays["same"], "label", "L2"), setattr(g.blocks[0].data_arrays["same"], "unit", "uV"))),
+        ("array append", lambda g: g.blocks[0].data_arrays["ints"].append(np.array([7, 8], dtype=np.int32))),
+        ("array write", lambda g: g.blocks[0].data_arrays["same"].__setitem__((0, 0), 99.0)),
+        ("append dimension", lambda g: g.blocks[0].data_arrays["pos"].append_set_dimension(["p", "q"])),
+        ("dimension attributes", lambda g: (setattr(g.blocks[0].data_arrays["same"].dimensions[0], "sampling_interval", 0.25),
+                                            setattr(g.blocks[0].data_arrays["same"].dimensions[1], "ticks", [1.0, 2.0, 3.0, 5.0]))),
+        ("calibration", lambda g: setattr(g.blocks[0].data_arrays["same"], "polynom_coefficients", (0.0, 2.0))),
+        ("frame append_column", lambda g: g.blocks[0].data_frames["frame"].append_column([0.5] * len(g.blocks[0].data_frames["frame"]), "c2", float)),
+        ("frame append_rows", lambda g: g.blocks[0].data_frames["frame"].append_rows([(9.0, 9, 9.5)])),
+        ("frame write_cell", lambda g: g.blocks[0].data_frames["frame"].write_cell(5, position=(0, 1))),
+        ("tag position / units", lambda g: (setattr(g.blocks[0].tags["tag"], "position", [0.25, 1.5]), setattr(g.blocks[0].tags["tag"], "units", ["s", "ms"]))),
+        ("tag reference added", lambda g: g.blocks[0].tags["tag"].references.append(g.blocks[0].data_arrays["ints"])),
+        ("tag reference removed", lambda g: g.blocks[0].tags["tag"].references.__delitem__(g.blocks[0].data_arrays["ints"])),
+        ("group emptied and refilled", lambda g: ([g.blocks[0].groups["grp"].data_arrays.__delitem__(x) for x in list(g.blocks[0].groups["grp"].data_arrays)],
+                                                  g.blocks[0].groups["grp"].data_arrays.append(g.blocks[0].data_arrays["text"]))),
+        ("mtag extents cleared", lambda g: setattr(g.blocks[0].multi_tags["mtag"], "extents", None)),
+        ("property values", lambda g: (setattr(g.sections["sess"].props["n"], "values", [4, 5]), g.sections["sess"].props["w"].extend_values([1.5]))),
+        ("property created / deleted", lambda g: (g.sections["sess"].create_property("fresh", ["v"]), g.sections["sess"].props.__delitem__("flag"))),
+        ("section created", lambda g: g.sections["sess"].create_section("later", "t")),
+        ("section attributes", lambda g: (setattr(g.sections["other"], "reference", "r9"), setattr(g.sections["other"], "type", "t9"))),
+        ("source created", lambda g: g.blocks[0].sources["src"].create_source("later", "t")),
+        ("array created / deleted", lambda g: (g.blocks[0].create_data_array("newa", "t", data=[1.0]), g.blocks[0].data_arrays.__delitem__("ext"))),
+        ("tag created", lambda g: g.blocks[0].create_tag("newt", "t", [0.0])),
+        ("metadata link changed", lambda g: setattr(g.blocks[0].data_arrays["same"], "metadata", g.sections["other"])),
+        ("entity definition", lambda g: (setattr(g.blocks[0], "definition", "d9"), setattr(g.blocks[0].groups["grp"], "definition", "d9"))),
+    ]
+    live = _collect(f); _observe(live)          # every object has been read once (whatever it may remember, it remembers now)
+    for name, step in steps:
+        try:
+            step(f)
+        except Exception as e:
+            check(False, "a legal change was refused", change=name, error=repr(e)[:200]); continue
+        fresh = _collect(f)
+        # objects that were deleted by the step are no longer part of the comparison; new ones join with their fresh handle
+        live = {k_: live.get(k_, fresh[k_]) for k_ in fresh}
+        a_, b_ = _observe(live), _observe(fresh)
+        stale = [k_ for k_ in a_ if diff(a_[k_], b_[k_]) is not None]
+        for k_ in stale:
+            r = diff(a_[k_], b_[k_])
+            if name == "group emptied and refilled" and k_.endswith("/g/grp") and r.startswith(".arrays: length 0 vs"):
+                # known finding C02-stale-link-list: the emptied link list group was deleted and re-created; the old handle still
+                # holds the deleted HDF5 group
+                KNOWN.setdefault("C02-stale-link-list", []).append("%s: %s%s" % (name, k_, r)); N[0] += 1
+            else:
+                check(False, "a handle obtained before the change shows something else than a fresh handle", change=name, object=k_, where=r)
+            live[k_] = fresh[k_]          # (one stale handle is reported once, not again after every later step)
+        if not stale:
+            N[0] += 1
+    before = _observe(_collect(f)); f.close()
+    g = nixio.File.open(path, nixio.FileMode.ReadOnly); after = _observe(_collect(g)); g.close()
+    r = diff(before, after)
+    check(r is None, "the reopened file does not show what the live handles showed before closing", where=r)
+    return ("one sample file with every entity kind, all objects fetched and fully read first; %d changes made through OTHER handles; after "
+            "each, every old object against a fresh one; finally against the reopened file" % len(steps))
+
+
 def _ids(w):
     out = []
     if isinstance(w, dict):
@@ -2223,7 +2362,7 @@ def _links(e):
     return out
 
 
-BATTERIES = {"c02": b_c02, "c13": b_c13, "c08": b_c08, "c16": b_c16, "c05": b_c05, "c04": b_c04, "c03": b_c03, "c12": b_c12, "c20": b_c20, "c18": b_c18, "c11": b_c11, "c10": b_c10, "c01": b_c01, "c17": b_c17, "c19": b_c19, "c14": b_c14, "c07": b_c07}
+BATTERIES = {"c02": b_c02, "c13": b_c13, "c08": b_c08, "c16": b_c16, "c05": b_c05, "c04": b_c04, "c03": b_c03, "c12": b_c12, "c20": b_c20, "c18": b_c18, "c11": b_c11, "c10": b_c10, "c01": b_c01, "c17": b_c17, "c19": b_c19, "c14": b_c14, "c07": b_c07, "c02live": b_c02live}
 
 
 def main():
